@@ -25,6 +25,8 @@ Definition table_open (t : fs_table) (p : str) : fsr :=
 Record case := {
   k_tftp : bool;
   k_old232 : bool;          (* variant before commit 232ac55 *)
+  k_cached : bool;          (* the template engine caches compiled templates: whether a request opens its file
+                               depends on earlier requests, so the opened paths are only required to be confined *)
   k_cfg : config;
   k_uri : str;
   k_table : fs_table
@@ -60,7 +62,8 @@ Definition run_model (k : case) : obs :=
       let x := prepare_context (k_cfg k) r u in
       if matches x then
         let '(_, opened, res) := handle (k_old232 k) T_id FS_none GD_some (table_open (k_table k)) (k_cfg k) r x in
-        {| o_init := true; o_matches := true; o_opened := opened; o_class := class_of res; o_body := body_of res |}
+        {| o_init := true; o_matches := true; o_opened := if k_cached k then [] else opened;
+           o_class := class_of res; o_body := body_of res |}
       else obs_nomatch true
   end.
 
@@ -114,7 +117,8 @@ Definition holds (k : case) (o : obs) : list string :=
              match table_lookup (k_table k) p with
              | None => ["oracle_missing"%string]
              | Some (FsOpened content) =>
-                 if (o_class o =? 3) && eqb_str (o_body o) content && list_str_eqb (o_opened o) [p]
+                 if (o_class o =? 3) && eqb_str (o_body o) content
+                    && (k_cached k || list_str_eqb (o_opened o) [p])
                  then [] else ["serves_the_named_file"%string]
              | Some FsENOENT | Some FsEISDIR | Some FsENOTDIR | Some FsENAMETOOLONG =>
                  if o_class o =? 0 then [] else ["not_regular_is_not_found"%string]
@@ -141,20 +145,20 @@ Definition decode_row (x : sx) : option (str * N * str) :=
   | L [p; I kind; B content] => obind (asStr p) (fun p => Some (p, Z.to_N kind, content))
   | _ => None
   end.
-Definition decode_case (tf o2 cfg : sx) (uri : str) (tbl : list sx) : option case :=
-  obind (asBool tf) (fun tf => obind (asBool o2) (fun o2 => obind (decode_config cfg) (fun cfg =>
-  obind (omap decode_row tbl) (fun tbl =>
-  Some {| k_tftp := tf; k_old232 := o2; k_cfg := cfg; k_uri := uri; k_table := tbl |})))).
+Definition decode_case (tf o2 ca cfg : sx) (uri : str) (tbl : list sx) : option case :=
+  obind (asBool tf) (fun tf => obind (asBool o2) (fun o2 => obind (asBool ca) (fun ca =>
+  obind (decode_config cfg) (fun cfg => obind (omap decode_row tbl) (fun tbl =>
+  Some {| k_tftp := tf; k_old232 := o2; k_cached := ca; k_cfg := cfg; k_uri := uri; k_table := tbl |}))))).
 
 Definition entry (x : sx) : sx :=
   match x with
-  | L [I 0%Z; tf; o2; cfg; B uri] =>
-      match decode_case tf o2 cfg uri [] with
+  | L [I 0%Z; tf; o2; ca; cfg; B uri] =>
+      match decode_case tf o2 ca cfg uri [] with
       | Some k => L (map sxStr (wanted k))
       | None => sxS "bad-case"
       end
-  | L [I 1%Z; tf; o2; cfg; B uri; L tbl; io] =>
-      match decode_case tf o2 cfg uri tbl, asObs io with
+  | L [I 1%Z; tf; o2; ca; cfg; B uri; L tbl; io] =>
+      match decode_case tf o2 ca cfg uri tbl, asObs io with
       | Some k, Some io =>
           let m := run_model k in
           L [ sxObs m; L (map sxS (holds k m)); L (map sxS (holds k io)) ]
